@@ -96,7 +96,9 @@ def body_fit(case):
     B0 = B.copy()
     X, Bp = run_fit(sv, (gens.as_form(B, case["form"]) if case.get("form") else B), Wcall, entry, opt)
     if np.ndim(X) == 2 and np.shape(X)[0] == B.shape[0]:
-        pairs = rows_sharing_a_solution(B, X, sv.lb, sv.ub, sv.Ap, scale=sv.extent)
+        Wsh = np.ones_like(B) if W is None else np.broadcast_to(np.asarray(W, dtype=float), B.shape)
+        opt_pred = [sv.predict(bvls(sv.Ap, sv.basep, sv.lb, sv.ub, b_, w_)[0]) for b_, w_ in zip(B, Wsh)]
+        pairs = rows_sharing_a_solution(B, X, sv.lb, sv.ub, sv.Ap, scale=sv.extent, opt_pred=opt_pred)
         check(not pairs, "fit:rows-share-a-solution", f"rows {pairs} have different targets but bit-identical intensities")
     # whole-number problem (photon counts): integer-typed targets, K and baseline give the same fit as the same numbers as floats
     if sv.K_raw is None or np.ndim(sv.K_raw) < 2:
@@ -187,12 +189,20 @@ RULE = (
     " A sixth of the systems have mixed-sign lower bounds."
 )
 
+def pred_unseen_unbounded_source_explicit_solver(case):
+    """a source no receptor sees (all-zero column) without an upper bound, fitted with the explicitly passed high-accuracy solver"""
+    A = np.asarray(case["system"]["A"], dtype=float)
+    ub = case["system"].get("ub")
+    ubv = np.full(A.shape[1], np.inf) if ub is None else np.asarray(ub, dtype=float)
+    return case.get("accuracy") == "high" and bool(np.any((np.abs(A).sum(axis=0) == 0) & ~np.isfinite(ubv)))
+
+
 PROP = Prop(
     pid="C04",
     title="The default fit is the global bounded weighted least-squares optimum",
     rule=RULE,
     assumptions=["scipy BVLS reaches the bounded least-squares optimum to 1e-12 on these sizes", "solver accuracies as stated in the property"],
-    predicates={"below_baseline": pred_below_baseline},
+    predicates={"below_baseline": pred_below_baseline, "unseen_unbounded_source_explicit_solver": pred_unseen_unbounded_source_explicit_solver},
     subs=[
         Sub("fit_optimal", fit_case(), body_fit, quick=1600, thorough=40000, quick_shards=8, min_nt_share=0.3),
     ],
